@@ -235,13 +235,15 @@ func (w *World) runLoopOnce(name string, loop func(ctx context.Context)) bool {
 		defer close(exited)
 		loop(ctx)
 	}()
+	dog := time.NewTimer(watchdog)
+	defer dog.Stop()
 	wait := func(what string) bool {
 		select {
 		case <-ctx.idle:
 			return true
 		case <-exited:
 			return false
-		case <-time.After(watchdog):
+		case <-dog.C:
 			ev.Fatalf("%s loop: no progress while waiting for %s (harness/engine problem)", name, what)
 		}
 		return false
@@ -256,7 +258,7 @@ func (w *World) runLoopOnce(name string, loop func(ctx context.Context)) bool {
 		close(ctx.done)
 		select {
 		case <-exited:
-		case <-time.After(watchdog):
+		case <-dog.C:
 			ev.Fatalf("%s loop did not stop after its context was cancelled", name)
 		}
 	}
